@@ -168,6 +168,13 @@ def short_key(key):
     return s
 
 
+TERM_BUDGET = 60000       # the largest body of the pinned tree needs < 5000 definition visits
+
+
+class TermBudgetExceeded(Exception):
+    pass
+
+
 class TermBuilder:
     def __init__(self, facts, body, closure_env=True):
         self.facts = facts
@@ -341,6 +348,9 @@ class TermBuilder:
     # ------------------------------------------------------------ terms
     def local_term(self, l, block, idx):
         key = (l, block, idx)
+        self._steps = getattr(self, '_steps', 0) + 1
+        if self._steps > TERM_BUDGET:
+            raise TermBudgetExceeded('value terms of %s exceed the evaluation budget (%d definition visits): the body is judged fail-closed' % (self.body.path, TERM_BUDGET))
         rs = self.reaching(l, block, idx)
         if self.allowed is not None:
             ds = self.defs(l)
